@@ -17,6 +17,12 @@ pub const BYSTANDER_BOUND: u64 = 10 * SEC;
 pub fn expect_client(ca: &ClientAbuse, h2: &H2Knobs, buffer_size: u64) -> Expect {
     use ecode::*;
     let framing = |e: Expect| -> Expect { if ca.phase == Phase::AfterClientGoAway { e.or(Expect::Ends) } else { e } };
+    if ca.drain {
+        // sozu has announced the end of the connection: any prescribed error is still right, and so is simply ending it
+        let mut c = ca.clone();
+        c.drain = false;
+        return match expect_client(&c, h2, buffer_size) { Expect::Any => Expect::Any, Expect::Tolerated | Expect::Ends => Expect::Ends, e => e.or(Expect::Ends) };
+    }
     match &ca.kind {
         Kind::Silent => Expect::Ends,
         Kind::Garbage { len, .. } => match ca.phase {
@@ -163,6 +169,19 @@ fn judge_served(who: &str, id: u64, req_len: u64, want: (u64, u16), obs: &Client
 
 fn common(np: &NetPlan, o: &MuxOutcome, feature: &str, v: &mut Vec<Violation>) {
     let p = &np.mux;
+    if p.soft_stop_at_ns.is_some() {
+        // draining variant: the worker must finish by itself; requests that were never sent are nobody's fault
+        if let Some(pn) = &o.panicked { v.push(Violation::new("panic", format!("worker|{feature}"), pn.clone())); }
+        if let Some(a) = &o.aborted { v.push(Violation::new("wedge", format!("{a}|{feature}"), format!("run aborted by the simulator: {a}"))); }
+        else if o.panicked.is_none() {
+            match o.softstop_final {
+                None => v.push(Violation::new("wedge", format!("worker_did_not_stop|{feature}"), "no final answer to SoftStop: the worker never finished draining".to_string())),
+                Some((t, _)) if t > o.softstop_sent_t + 60 * SEC => v.push(Violation::new("wedge", format!("slow_soft_stop|{feature}"), format!("the worker needed {} s to drain", (t - o.softstop_sent_t) / SEC))),
+                _ => {}
+            }
+        }
+        return;
+    }
     if let Some(pn) = &o.panicked {
         // the key names the panic itself (numbers blanked), so that a different panic is a different finding
         let norm: String = { let mut s = String::new(); let mut prev_digit = false; for c in pn.chars() { if c.is_ascii_digit() { if !prev_digit { s.push('#'); } prev_digit = true; } else { s.push(c); prev_digit = false; } } s.chars().take(80).collect() };
@@ -216,11 +235,12 @@ pub fn oracle_client(np: &NetPlan, o: &MuxOutcome) -> Vec<Violation> {
     if o.panicked.is_some() || o.aborted.is_some() { return v; }
     let p = &np.mux;
     let rec = &o.h2_clients[0];
+    if ca.drain && (rec.connect_err.is_some() || rec.tls.as_ref().map_or(true, |t| !t.handshake_done)) { return v; }
     if rec.connect_err.is_some() || rec.tls.as_ref().map_or(true, |t| !t.handshake_done) {
         v.push(Violation::new("abuser_setup", format!("tls|{feature}"), format!("the abusive client could not even connect: {:?} {:?}", rec.connect_err, rec.tls.as_ref().and_then(|t| t.error.clone()))));
         return v;
     }
-    if rec.abuse_sent.is_empty() && ca.phase == Phase::AfterClientGoAway { return v; }
+    if rec.abuse_sent.is_empty() && (ca.phase == Phase::AfterClientGoAway || ca.drain) { return v; }
     if rec.abuse_sent.is_empty() && !matches!(ca.kind, Kind::Silent) {
         // the setup did not get as far as the abuse (e.g. sozu already ended the connection): nothing to judge beyond the common clauses
         if !rec.goaways.is_empty() || rec.eof { v.push(Violation::new("valid_input_rejected", format!("setup|{feature}"), format!("the connection ended during the well-formed setup before any abuse was sent: goaways {:?} eof {} streams {:?}", rec.goaways.iter().map(|g| ecode_name(g.code)).collect::<Vec<_>>(), rec.eof, rec.streams.values().map(|s| (s.id, s.status, s.recv_rst)).collect::<Vec<_>>()))); }
